@@ -234,6 +234,59 @@ def stores_after_generation(ctx):
     )
 
 
+def mutators_convert_before_they_change(ctx):
+    """In a method that changes the method set, everything that can reject the argument (converting a plain function,
+    extracting a signature) has run before the first change: nothing fallible of the package lies between a write to
+    the method table / mixin list and the rebuild that follows it."""
+    from .common import method_table_writers
+
+    oc = A.function_class(ctx.repo)
+    upd = A.update_method(ctx.repo)
+    cg = get_callgraph(ctx)
+    seen = set()
+    n = 0
+    for m, w, st in method_table_writers(ctx):
+        if m.key in seen or m is upd:
+            continue
+        seen.add(m.key)
+        rv = recv_name(m)
+        writes = [s for (mm, ww, s) in method_table_writers(ctx) if mm is m]
+        cfg = cfg_of(ctx, m)
+        try:
+            wnodes = [cfg.node_of(s) for s in writes]
+        except KeyError:
+            continue  # the writes sit in a nested helper: nothing of the method follows them but the rebuild
+        n += 1
+        ctx.touch(m)
+        after = set()
+        for wn in wnodes:
+            after |= set(cfg.reachable(wn))
+        bad = None
+        for s in all_stmts(m.node):
+            if isinstance(s, (ast.FunctionDef, ast.ClassDef)):
+                continue
+            try:
+                sn = cfg.node_of(s)
+            except KeyError:
+                continue
+            if sn not in after:
+                continue
+            for c in stmt_calls(s):
+                if is_self_attr(c.func, upd.name, selfname=rv):
+                    continue
+                why = cg.fallible_reasons(c, m)
+                if why and bad is None:
+                    bad = (s, c, why[0])
+        ctx.ob(
+            f"{m.key}:converts-before-it-changes",
+            m.loc(bad[0]) if bad else m.loc(),
+            f"in {m.name}() nothing of the package that can reject the argument runs after the first change of the method table / mixin list",
+            bad is None,
+            (f"`{short(bad[1], 40)}` ({bad[2]}) can still fail after `{short(writes[0], 40)}` changed the method set: the failure skips the rebuild, so a function already in use keeps its old table while its method set says otherwise - the stray change silently comes into service at the next unrelated registration" if bad else ""),
+        )
+    ctx.require(n >= 2, "expected the mutators of the function class")
+
+
 def r3_rewriter_globals_last(ctx):
     rc = A.recompiler(ctx.repo)
     ctx.touch(rc)
@@ -356,6 +409,7 @@ RULES = [
     ("C18.R2", "P1", r2, "commit last"),
     ("C18.R4", "P1", r4_flag_never_unset, "the built flag is never lowered while the entry point is live"),
     ("C18.R5", "P1", r5_no_swallowed_exceptions, "resolution code swallows no unexpected exception"),
+    ("C18.R13", "P1", mutators_convert_before_they_change, "mutators reject the argument before they change anything"),
     ("C18.R3", "P1", r3_rewriter_globals_last, "rewriter touches shared globals last"),
     ("C18.R6", "P1", _more("own_rebuild_before_dependents"), "own rebuild before dependents"),
 ]
